@@ -43,6 +43,41 @@ except RuntimeError:
 '''
 
 
+EXPORTER = r'''
+import sys, os, numpy as np
+sys.path.insert(0, os.environ["REPLAY_REPO"])
+from oqupy.process_tensor import SimpleProcessTensor, FileProcessTensor
+fn, crash_at = sys.argv[1], int(sys.argv[2])
+count = {"n": 0}
+
+
+def failing(real):
+    def f(self, *a, **k):
+        r = real(self, *a, **k)
+        self._f.flush()
+        if count["n"] == crash_at:
+            raise OSError("the writer fails right after this file operation (disk full / interrupt)")
+        count["n"] += 1
+        return r
+    return f
+
+
+for name in ("set_initial_tensor", "set_mpo_tensor", "set_cap_tensor"):
+    setattr(FileProcessTensor, name, failing(getattr(FileProcessTensor, name)))
+pt = SimpleProcessTensor(2, dt=0.1)
+for k in range(3):
+    pt.set_mpo_tensor(k, np.ones((1, 1, 4, 4)) * (k + 1))
+for k in range(4):
+    pt.set_cap_tensor(k, np.ones((1,)))
+try:
+    pt.export(fn)
+except OSError:
+    import gc
+    gc.collect()
+    sys.exit(3)
+'''
+
+
 def _open_status(fn):
     from oqupy.process_tensor import FileProcessTensor
     with warnings.catch_warnings(record=True) as w:
@@ -83,6 +118,20 @@ def file_protocol(inp):
             st = _open_status(fn)
             if st.startswith('silent'):
                 bad.append({'writer_failed_with_exception_at_point': crash_at, 'reader': st})
+        # SimpleProcessTensor.export() interrupted by an exception right after its k-th file operation
+        for crash_at in range(0, 8):
+            fn = os.path.join(d, 'export%d.h5' % crash_at)
+            subprocess.run([sys.executable, '-c', EXPORTER, fn, str(crash_at)], env=dict(os.environ, REPLAY_REPO=repo),
+                           capture_output=True, timeout=120)
+            if not os.path.exists(fn):
+                continue
+            st = _open_status(fn)
+            if st.startswith('silent'):
+                bad.append({'export_failed_with_exception_after_file_operation': crash_at, 'reader': st})
+        fn = os.path.join(d, 'export_ok.h5')
+        subprocess.run([sys.executable, '-c', EXPORTER, fn, '99'], env=dict(os.environ, REPLAY_REPO=repo), capture_output=True, timeout=120)
+        if _open_status(fn) != 'silent:len=3':
+            bad.append({'complete_export': _open_status(fn), 'required': 'silent:len=3'})
         # clean close
         fn = os.path.join(d, 'clean.h5')
         subprocess.run([sys.executable, '-c', WRITER, fn, '99'], env=dict(os.environ, REPLAY_REPO=repo), capture_output=True, timeout=120)
